@@ -13,6 +13,16 @@ Four harnesses, all on the virtual-time loop:
 * raw  : a RawPeer sends well-formed PDUs (host-fragmented or hand-cut) with malformed fragment
          sequences in between; the device under test must receive exactly the well-formed PDUs.
 * asm  : the same scripts fed directly to hci.HCI_AclDataPacketAssembler / to a bare Host.
+* mux  : a bare Host with 2..3 connections (LE and BR/EDR): the fragment streams of the connections, each a
+         raw/asm script, are interleaved fragment by fragment, with a stream for a handle that is no
+         connection in between; connections are replaced (Disconnection Complete + Connection Complete for
+         the same handle) in the middle of a PDU. Every connection is judged by itself.
+
+The pdus harness also runs histories: a link is dropped (by either side; while fragments are queued in the
+host, in the controller's assembler, or at quiescence) and set up again - the controller hands out the same
+handle - and PDUs follow on the new connection; and dual-mode worlds in which node 0 has an LE link and a
+BR/EDR link at the same time (two buffer pools of different geometry, or one shared pool). The iso harness
+also runs two CIS of one CIG (one buffer pool, one sequence counter per CIS).
 """
 
 from __future__ import annotations
@@ -39,7 +49,20 @@ RULE = (
     'raw/asm: scripts of well-formed PDUs (host-fragmented or cut at generated offsets) and malformed '
     'sequences (continuation without start, start without end, data beyond the announced length, start '
     'shorter than 4 bytes) through a RawPeer, the bare assembler and a bare Host; non-trivial = a malformed '
-    'sequence precedes a well-formed PDU. distinct by (geometry, transport, length/step sequence).'
+    'sequence precedes a well-formed PDU. distinct by (geometry, transport, length/step sequence). '
+    'reconnect: pdus worlds with small buffer counts in which a link is dropped once or twice (by the central or the '
+    'peripheral; right after the sends, 3 ms later, or at quiescence) with a PDU of more fragments than buffers under '
+    'way, set up again (same handle) and used again in one or both directions; what arrived of the cut PDUs must be '
+    'intact, once, in order and on the old connection only, the emitted fragments a prefix of the fragment stream; '
+    'everything sent afterwards is judged as usual; non-trivial = a PDU on a re-established link. '
+    'mixed: 3 nodes, node 0 with an LE link to one peer and a BR/EDR link to the other, its controller with two '
+    'different generated geometries (fragments judged against the length, in-flight packets against the count of the '
+    'pool of their link) or one shared pool; both links loaded at once; one case in three also drops a link. '
+    'iso2: two CIS in the CIG, SDUs dealt to the two links by a generated pattern, independent start sequence '
+    'numbers, fragments judged per CIS handle, in-flight packets against the one ISO pool. '
+    'mux: bare Host, 2..3 connections + optionally an unknown handle, one asm script per connection, merged by a '
+    'generated order; steps may replace the connection; non-trivial = a fragment of another connection falls '
+    'between two fragments of a well-formed PDU.'
 )
 ASSUMPTIONS = [
     'ACL data lengths below 5 and ISO data lengths below 5 are not generated (a start fragment could not hold '
@@ -53,8 +76,17 @@ ASSUMPTIONS = [
     'ISO SDU lengths 1..4095 only (0 emits no fragment, the length field has 12 bits)',
     'delivery is decided at quiescence of the HCI taps within a virtual-time limit proportional to the number '
     'of fragments',
+    'a PDU that is under way when its link is dropped may be lost (the statement speaks of PDUs sent on a connection; '
+    'the link is gone); PDUs sent before a disconnection that is issued at quiescence must all have arrived. The link is '
+    'set up again only after the HCI taps are quiet, so that no packet of the old connection is still travelling to a '
+    'controller that has already given the handle to the new one (that race exists on real HCI transports and is not '
+    'what is judged here)',
+    'packets in flight on a handle stop counting against the controller buffers when the Disconnection Complete event '
+    'for that handle reaches the host (Core Vol 4 Part E 4.3)',
+    'mux: fragments for a handle that is no connection of the host must not surface anywhere; a connection that is '
+    'replaced starts with an empty reassembly buffer (a continuation first on the new connection completes nothing)',
 ]
-SHRINK_KEYS = ('sends', 'sdus', 'script')
+SHRINK_KEYS = ('sends', 'sdus', 'script', 'cuts', 'order')
 
 H2C, C2H = world.H2C, world.C2H
 TOP = (65531, 65532, 65533, 65534, 65535)
@@ -150,6 +182,8 @@ class Recorder:
         self.sent: list[bytes] = []
         self.inflight: dict[tuple[int, int], int] = {}  # (packet type, handle) -> count
         self.peak = {2: 0, 5: 0}
+        self.pool_of: dict[int, str] = {}  # ACL handle -> name of the controller buffer pool it draws from
+        self.peak_pool: dict[str, int] = {}
         node_or_peer.host.set_packet_sink(self)
         node_or_peer.tap.listeners.append(self._listen)
 
@@ -161,9 +195,19 @@ class Recorder:
             self.inflight[key] = self.inflight.get(key, 0) + 1
             total = sum(v for (t, _h), v in self.inflight.items() if t == packet[0])
             self.peak[packet[0]] = max(self.peak[packet[0]], total)
+            if packet[0] == 2 and key[1] in self.pool_of:
+                pool = self.pool_of[key[1]]
+                total = sum(v for (t, h), v in self.inflight.items() if t == 2 and self.pool_of.get(h) == pool)
+                self.peak_pool[pool] = max(self.peak_pool.get(pool, 0), total)
         self.down.on_packet(packet)
 
     def _listen(self, direction, p) -> None:
+        if direction == C2H and len(p) >= 7 and p[0] == 0x04 and p[1] == hci.HCI_DISCONNECTION_COMPLETE_EVENT and p[3] == 0:
+            # the link is gone: its packets are no longer in the controller's buffers (Core Vol 4 Part E 4.3)
+            handle = u16(p, 4) & 0xFFF
+            for t in (2, 5):
+                self.inflight.pop((t, handle), None)
+            return
         if direction != C2H or len(p) < 4 or p[0] != 0x04 or p[1] != hci.HCI_NUMBER_OF_COMPLETED_PACKETS_EVENT:
             return
         n = p[3]
@@ -226,6 +270,10 @@ def geometry_strategy(classic: bool):
 
 
 def geometry_dict(g) -> dict:
+    if g[0] == 'dual':
+        # dual-mode controller with dedicated LE buffers: both geometries generated
+        return {'le_acl_data_packet_length': g[1], 'total_num_le_acl_data_packets': g[2],
+                'acl_data_packet_length': g[3], 'total_num_acl_data_packets': g[4]}
     kind, f, n = g
     if kind == 'classic':
         return {'acl_data_packet_length': f, 'total_num_acl_data_packets': n}
@@ -233,6 +281,26 @@ def geometry_dict(g) -> dict:
         return {'le_acl_data_packet_length': 0, 'total_num_le_acl_data_packets': 0,
                 'acl_data_packet_length': f, 'total_num_acl_data_packets': n}
     return {'le_acl_data_packet_length': f, 'total_num_le_acl_data_packets': n}
+
+
+def link_geometry(g, classic_link: bool):
+    """(ACL data length, packet count, pool name) that node geometry g gives a link of one transport."""
+    kind = g[0]
+    if kind == 'dual':
+        return (g[3], g[4], 'acl') if classic_link else (g[1], g[2], 'le')
+    if kind == 'le_shared':
+        return (g[1], g[2], 'shared')
+    if kind == 'classic':
+        return (g[1], g[2], 'acl') if classic_link else (27, 64, 'le')
+    return (27, 64, 'acl') if classic_link else (g[1], g[2], 'le')
+
+
+def link_transports(case) -> list:
+    """True = BR/EDR for the link between node 0 and node 1, 2, ..."""
+    nodes = int(case['nodes'])
+    if case.get('links'):
+        return [t == 'classic' for t in case['links']][: nodes - 1]
+    return [bool(case['classic'])] * (nodes - 1)
 
 
 def length_strategy(f: int, cap: int, top: bool):
@@ -276,21 +344,132 @@ def pdus_case(draw, cap: int, budget: int, top: bool):
             'delays': delays, 'sends': sends}
 
 
+# ---------------------------------------------------------------------------
+# pdus histories: links that are dropped and set up again (the controller hands out the same handle), and
+# dual-mode nodes that run an LE and a BR/EDR link at the same time (two buffer pools, or one shared pool)
+# ---------------------------------------------------------------------------
+def hist_geometry(draw, classic_link: bool, shared_ok: bool = True):
+    f = draw(st.one_of(st.sampled_from([5, 7, 9, 27, 27, 64, 251]), st.integers(5, 300)))
+    n = draw(st.sampled_from([1, 1, 2, 3, 3, 5, 64]))
+    if classic_link:
+        return ('classic', f, n)
+    return ('le_shared' if shared_ok and draw(st.integers(0, 5)) == 0 else 'le', f, n)
+
+
+@st.composite
+def history_case(draw, mixed: bool, cap: int, budget: int):
+    if mixed:
+        classic, nodes = True, 3
+        links = draw(st.sampled_from([['le', 'classic'], ['classic', 'le']]))
+        transports = [t == 'classic' for t in links]
+        n_cuts = draw(st.sampled_from([0, 0, 1]))
+    else:
+        classic = draw(st.sampled_from([False, False, True]))
+        nodes = draw(st.sampled_from([2, 2, 3]))
+        links = None
+        transports = [classic] * (nodes - 1)
+        n_cuts = draw(st.sampled_from([1, 1, 1, 2]))
+    geos = []
+    for i in range(nodes):
+        if mixed and i == 0:
+            if draw(st.integers(0, 3)) == 0:
+                g = hist_geometry(draw, True)
+                geos.append(('le_shared', g[1], g[2]))  # one pool for both transports
+            else:
+                le = hist_geometry(draw, False, shared_ok=False)
+                br = hist_geometry(draw, True)
+                f_acl = br[1] if (br[1], br[2]) != (le[1], le[2]) else br[1] + 1
+                geos.append(('dual', le[1], le[2], f_acl, br[2]))
+        elif mixed:
+            geos.append(hist_geometry(draw, transports[i - 1]))
+        else:
+            geos.append(hist_geometry(draw, classic))
+    delays = [draw(st.lists(st.sampled_from([0, 0, 0, 1, 7, 50]), min_size=0, max_size=4)) for _ in range(nodes)]
+    cuts = []
+    for _ in range(n_cuts):
+        peer = draw(st.integers(1, nodes - 1))
+        cuts.append([peer, draw(st.sampled_from([0, peer])), draw(st.sampled_from(['now', 'now', 'now', 'gap', 'idle']))])
+    pairs = [(0, 1), (1, 0)] + ([(0, 2), (2, 0)] if nodes == 3 else [])
+    sends = []
+    used = set()
+    frags = 0
+
+    def geo_of(src, dst):
+        return link_geometry(geos[src], transports[max(src, dst) - 1])
+
+    def add(src, dst, n, epoch):
+        nonlocal frags
+        f = geo_of(src, dst)[0]
+        room = max(1, budget - frags)
+        if (n + 4 + f - 1) // f > room:
+            n = max(0, room * f - 4)
+        frags += (n + 4 + f - 1) // f
+        cid = draw(st.one_of(st.sampled_from([0x40, 0x41, 0x7F, 0x80, 0xFFFF]), st.integers(0x40, 0xFFFF)))
+        while cid in used:
+            cid = cid + 1 if cid < 0xFFFF else 0x40
+        used.add(cid)
+        sends.append([src, dst, cid, n, draw(st.sampled_from([0, 0, 0, 1, 20])), epoch])
+
+    def long_length(src, dst):
+        # more fragments than the controller has buffers: some are still waiting in the host when the link goes
+        f, cnt, _pool = geo_of(src, dst)
+        k = draw(st.integers(min(cnt, 8) + 1, min(cnt, 8) + 6))
+        return min(cap, max(0, k * f - 4 + draw(st.sampled_from([-1, 0, 0, 1, -(f // 2)]))))
+
+    for e in range(n_cuts + 1):
+        forced = []
+        if e > 0:
+            # traffic on the link that was just set up again, in one or both directions
+            p = cuts[e - 1][0]
+            forced += draw(st.sampled_from([[(0, p)], [(p, 0)], [(0, p), (p, 0)]]))
+        if e < n_cuts:
+            # traffic that is under way when the link is dropped
+            p = cuts[e][0]
+            forced += draw(st.sampled_from([[(0, p)], [(p, 0)], [(0, p), (p, 0)]]))
+        if mixed and e == 0:
+            forced += [(0, 1), (0, 2)]  # both pools of node 0 busy at the same time
+        for (src, dst) in forced:
+            add(src, dst, long_length(src, dst), e)
+        for _ in range(draw(st.integers(0, 3))):
+            src, dst = draw(st.sampled_from(pairs))
+            add(src, dst, draw(length_strategy(geo_of(src, dst)[0], cap, False)), e)
+    case = {'kind': 'pdus', 'classic': classic, 'nodes': nodes, 'geometry': [list(g) for g in geos],
+            'delays': delays, 'sends': sends, 'cuts': cuts}
+    if links:
+        case['links'] = links
+    return case
+
+
 def run_pdus_case(ctx, case) -> None:
     classic = bool(case['classic'])
     nodes = int(case['nodes'])
     geos = [tuple(g) for g in case['geometry']]
     delays = [list(d) for d in case['delays']]
-    sends = [tuple(s) for s in case['sends']]
+    sends = [tuple(s) for s in case['sends']]  # (src, dst, cid, n, gap[, epoch])
+    # histories: after the sends of epoch k the link 0-peer is dropped by node `who` and set up again
+    cuts = []
+    for peer, who, when in case.get('cuts', []):
+        peer = min(max(1, int(peer)), nodes - 1)
+        cuts.append((peer, 0 if int(who) == 0 else peer, when if when in ('now', 'gap', 'idle') else 'now'))
+    n_epochs = len(cuts) + 1
+    epoch_of = [min(int(s[5]), n_epochs - 1) if len(s) > 5 else 0 for s in sends]
+    transports = link_transports(case)  # per peer: True = BR/EDR
     loop = vloop.new_loop()
-    state: dict = {'phase': 'setup'}
+    state: dict = {'phase': 'setup', 'epoch': 0, 'epochs': []}
     got: dict[int, list] = {i: [] for i in range(nodes)}
 
     def fail(sig, what):
         ctx.fail(sig, what, dict(case))
 
-    payloads = [pattern(('p', k, cid, n), n) for k, (_s, _d, cid, n, _g) in enumerate(sends)]
-    total_frags = sum((len(p) + 4 + geos[s[0]][1] - 1) // geos[s[0]][1] for p, s in zip(payloads, sends))
+    def is_classic(a, b):
+        return transports[max(a, b) - 1]
+
+    def sender_geo(src, dst):
+        return link_geometry(geos[src], is_classic(src, dst))
+
+    payloads = [pattern(('p', k, s[2], s[3]), s[3]) for k, s in enumerate(sends)]
+    total_frags = sum((len(p) + 4 + sender_geo(s[0], s[1])[0] - 1) // sender_geo(s[0], s[1])[0]
+                      for p, s in zip(payloads, sends))
     limit = 30.0 + 0.25 * total_frags
 
     async def main():
@@ -299,57 +478,107 @@ def run_pdus_case(ctx, case) -> None:
         recs = [Recorder(node) for node in w.nodes]
         await w.power_on()
         handles = {}
-        for peer in range(1, nodes):
-            if classic:
+        conns = {}
+
+        async def connect(peer):
+            if transports[peer - 1]:
                 c0, cp = await w.connect_classic(0, peer)
             else:
                 c0, cp = await w.connect_le(0, peer)
             handles[(0, peer)] = c0.handle
             handles[(peer, 0)] = cp.handle
+            conns[(0, peer)] = c0
+            conns[(peer, 0)] = cp
+            recs[0].pool_of[c0.handle] = sender_geo(0, peer)[2]
+            recs[peer].pool_of[cp.handle] = sender_geo(peer, 0)[2]
+
+        async def quiesce():
+            t_end = loop.time() + limit
+            idle = 0
+            last = None
+            while loop.time() < t_end and idle < 3:
+                await asyncio.sleep(0.5)
+                now = tuple(len(n.tap.log) for n in w.nodes)
+                idle = idle + 1 if now == last else 0
+                last = now
+
+        for peer in range(1, nodes):
+            await connect(peer)
         await asyncio.sleep(1.0)
         for i, node in enumerate(w.nodes):
-            node.host.on('l2cap_pdu', lambda h, cid, p, i=i: got[i].append((h, cid, bytes(p))))
-        state.update(world=w, recs=recs, handles=handles, marks=[len(r.sent) for r in recs], phase='send')
-        for (src, dst, cid, _n, gap), payload in zip(sends, payloads):
-            w[src].host.send_l2cap_pdu(handles[(src, dst)], cid, payload)
-            if gap:
-                await asyncio.sleep(gap / 1000.0)
-        state['phase'] = 'deliver'
-        t_end = loop.time() + limit
-        idle = 0
-        last = None
-        while loop.time() < t_end and idle < 3:
-            await asyncio.sleep(0.5)
-            now = tuple(len(n.tap.log) for n in w.nodes)
-            idle = idle + 1 if now == last else 0
-            last = now
+            node.host.on('l2cap_pdu', lambda h, cid, p, i=i: got[i].append((state['epoch'], h, cid, bytes(p))))
+        state.update(world=w, recs=recs)
+        for e in range(n_epochs):
+            ep = {'handles': dict(handles), 'marks': [len(r.sent) for r in recs]}
+            state['epochs'].append(ep)
+            state['phase'] = 'send'
+            for k, (s, payload) in enumerate(zip(sends, payloads)):
+                if epoch_of[k] != e:
+                    continue
+                w[s[0]].host.send_l2cap_pdu(handles[(s[0], s[1])], s[2], payload)
+                if s[4]:
+                    await asyncio.sleep(s[4] / 1000.0)
+            if e < len(cuts):
+                peer, who, when = cuts[e]
+                if when == 'idle':
+                    state['phase'] = 'deliver'
+                    await quiesce()
+                elif when == 'gap':
+                    await asyncio.sleep(0.003)
+                state['phase'] = 'cut'
+                await conns[(who, peer if who == 0 else 0)].disconnect()
+                # everything that was under way on the HCI transports is delivered before the link is set up
+                # again: what is judged afterwards is state that survived, not a race
+                await quiesce()
+                ep['ends'] = [len(r.sent) for r in recs]
+                state['epoch'] = e + 1
+                state['phase'] = 'reconnect'
+                before = (handles[(0, peer)], handles[(peer, 0)])
+                await connect(peer)
+                ep['same_handles'] = before == (handles[(0, peer)], handles[(peer, 0)])
+                await asyncio.sleep(1.0)
+            else:
+                state['phase'] = 'deliver'
+                await quiesce()
+                ep['ends'] = [len(r.sent) for r in recs]
         state['phase'] = 'done'
 
     outcome = None
     try:
-        loop.complete(main(), horizon=limit + 600.0)
+        loop.complete(main(), horizon=(limit + 100.0) * 2 * n_epochs + 600.0)
     except (vloop.Stalled, vloop.HorizonExceeded) as e:
         outcome = type(e).__name__
     except vloop.BudgetExceeded:
         outcome = 'budget'
     except Exception as e:  # noqa: BLE001
-        if state['phase'] == 'setup':
+        if state['phase'] in ('setup', 'reconnect'):
             loop.shutdown()
-            raise HarnessError(f'C05 pdus set-up failed for {case!r}: {e!r}')
+            raise HarnessError(f'C05 pdus set-up ({state["phase"]}) failed for {case!r}: {e!r}')
         outcome = f'raised:{site_of(e)}'
 
     try:
         labels = set()
-        labels.add('classic' if classic else 'le')
+        if any(transports):
+            labels.add('classic')
+        if not all(transports):
+            labels.add('le')
+        if any(transports) and not all(transports):
+            labels.add('mixed_transports')
         if nodes == 3:
             labels.add('three_nodes')
         if any(any(d) for d in delays):
             labels.add('delayed')
         nontrivial = False
-        for (src, _dst, _cid, n, _g) in sends:
-            kind, f, cnt = geos[src]
+        for k, s in enumerate(sends):
+            src, dst, n = s[0], s[1], s[3]
+            kind = geos[src][0]
+            f, cnt, pool = sender_geo(src, dst)
             if kind == 'le_shared':
                 labels.add('le_shared_buffers')
+            if kind == 'dual' and 'mixed_transports' in labels:
+                labels.add('mixed_dual_pools')
+            if kind == 'le_shared' and 'mixed_transports' in labels:
+                labels.add('mixed_shared_pool')
             if f <= 9:
                 labels.add('tiny_F')
             if cnt == 1:
@@ -378,70 +607,155 @@ def run_pdus_case(ctx, case) -> None:
                 labels.add('len_top')
             if n + 4 > 65535:
                 labels.add('pdu_over_65535')
+            # a PDU on a link that was dropped and set up again before
+            again = [c for c in cuts[: epoch_of[k]] if c[0] == max(src, dst)]
+            if again:
+                labels.add('pdu_after_reconnect')
+                nontrivial = True
+                if nfr >= 2:
+                    labels.add('reconnect_multi_fragment')
+                if nfr > cnt:
+                    labels.add('reconnect_credits_exhausted')
         if len({s[0] for s in sends}) >= 2:
             labels.add('both_directions')
+        for peer, who, when in cuts:
+            labels.add('reconnect')
+            labels.add(f'cut:{when}')
+            labels.add('cut_by_central' if who == 0 else 'cut_by_peripheral')
+            if nodes == 3:
+                labels.add('cut_while_other_link_up')
         if outcome == 'budget':
             labels.add('iteration_budget_hit')
         elif outcome is not None and state['phase'] == 'setup':
             fail(f'setup/{outcome}', f'power-on/connection did not complete for geometry {geos}: {outcome}')
+        elif outcome is not None and state['phase'] == 'reconnect':
+            fail(f'reconnect/{outcome}', f'the link could not be set up again after the disconnection: {outcome}')
         elif outcome is not None:
             fail(f'hang/{state["phase"]}/{outcome}', f'phase {state["phase"]}: {outcome}')
         else:
-            analyse_pdus(ctx, case, state, sends, payloads, geos, classic, got, loop, fail)
-        ctx.case((classic, nodes, geos, delays, [s[:4] for s in sends]), nontrivial, labels,
-                 sample={'classic': classic, 'geometry': geos, 'lengths': [s[3] for s in sends]})
+            analyse_pdus(ctx, case, state, sends, payloads, geos, transports, epoch_of, cuts, got, loop, fail, labels)
+        ctx.case((classic, nodes, geos, delays, [tuple(s[:4]) + (epoch_of[k],) for k, s in enumerate(sends)],
+                  cuts, case.get('links')), nontrivial, labels,
+                 sample={'classic': classic, 'geometry': geos, 'lengths': [s[3] for s in sends],
+                         **({'cuts': cuts} if cuts else {}), **({'links': case['links']} if case.get('links') else {})})
     finally:
         loop.shutdown()
 
 
-def analyse_pdus(ctx, case, state, sends, payloads, geos, classic, got, loop, fail) -> None:
+def analyse_pdus(ctx, case, state, sends, payloads, geos, transports, epoch_of, cuts, got, loop, fail, labels) -> None:
     w = state['world']
-    handles = state['handles']
+    nodes = len(w.nodes)
     errors = [e['exception'] for e in loop.errors if e.get('exception') is not None]
-    # ---- fragments emitted by every sender
+
+    def is_classic(a, b):
+        return transports[max(a, b) - 1]
+
+    # ---- what every sending controller advertised for the links that are used
+    pools: dict[int, dict[str, int]] = {}
     for i, node in enumerate(w.nodes):
-        mine = [(s, p) for s, p in zip(sends, payloads) if s[0] == i]
-        if not mine:
-            continue
-        adv = acl_geometry(advertised(node.tap.log), classic)
-        if adv is None:
-            raise HarnessError('no Read Buffer Size answer seen on the tap')
-        f_adv, n_adv = adv
-        if (f_adv, n_adv) != (geos[i][1], geos[i][2]):
-            raise HarnessError(f'controller advertised {adv}, geometry was {geos[i]}')
-        expect: dict[int, list[bytes]] = {}
-        for (src, dst, cid, _n, _g), p in mine:
-            expect.setdefault(handles[(src, dst)], []).append(frame(cid, p))
+        adv = None
+        for s in sends:
+            if s[0] != i:
+                continue
+            if adv is None:
+                adv = advertised(node.tap.log)
+            f, n, pool = link_geometry(geos[i], is_classic(s[0], s[1]))
+            seen = acl_geometry(adv, is_classic(s[0], s[1]))
+            if seen is None:
+                raise HarnessError('no Read Buffer Size answer seen on the tap')
+            if tuple(seen) != (f, n):
+                raise HarnessError(f'controller advertised {seen}, geometry was {geos[i]}')
+            pools.setdefault(i, {})[pool] = n
+    # ---- fragments emitted by every sender, epoch by epoch
+    for e, ep in enumerate(state['epochs']):
+        hs = ep['handles']
+        cut_links = set()
+        if e < len(cuts) and cuts[e][2] != 'idle':
+            cut_links = {(0, cuts[e][0]), (cuts[e][0], 0)}
+        if ep.get('same_handles'):
+            labels.add('reconnect_same_handle')
+        for i in range(nodes):
+            mine = [(s, p) for k, (s, p) in enumerate(zip(sends, payloads)) if s[0] == i and epoch_of[k] == e]
+            earlier = any(s[0] == i and epoch_of[k] < e for k, s in enumerate(sends))
+            if not mine and not earlier:
+                continue
+            expect: dict[int, list[bytes]] = {}
+            f_of: dict[int, int] = {}
+            for s, p in mine:
+                h = hs[(s[0], s[1])]
+                expect.setdefault(h, []).append(frame(s[2], p))
+                f_of[h] = link_geometry(geos[i], is_classic(s[0], s[1]))[0]
+            partial = {hs[k] for k in cut_links if k[0] == i}
+            rec = state['recs'][i]
+            packets = [p for p in rec.sent[ep['marks'][i] : ep['ends'][i]] if p[0] == 2]
+            progress: dict = {}
+            if not check_acl_fragments(packets, expect, f_of, fail, partial_ok=partial, progress=progress):
+                return
+            for h in partial & set(expect):
+                k, off = progress[h]
+                if off:
+                    labels.add('cut_mid_pdu')
+                if k < len(expect[h]):
+                    labels.add('cut_with_queued_fragments')
+    for i, by_pool in pools.items():
         rec = state['recs'][i]
-        if not check_acl_fragments(rec.data_packets(2, state['marks'][i]), expect, f_adv, fail):
+        for pool, n_adv in by_pool.items():
+            peak = rec.peak_pool.get(pool, 0)
+            if len(by_pool) == 1:
+                peak = max(peak, rec.peak[2])
+            if peak > n_adv:
+                fail('frag/over_credit', f'{peak} ACL packets in flight, controller advertised {n_adv}'
+                                         + (f' for its {pool} buffers' if len(by_pool) > 1 else ''))
+                return
+    # ---- delivery, epoch by epoch
+    for e, ep in enumerate(state['epochs']):
+        hs = ep['handles']
+        cut_links = set()
+        if e < len(cuts) and cuts[e][2] != 'idle':
+            cut_links = {(0, cuts[e][0]), (cuts[e][0], 0)}
+        for (src, dst) in sorted(hs):
+            on_link = [(k, (s[2], p)) for k, (s, p) in enumerate(zip(sends, payloads)) if (s[0], s[1]) == (src, dst)]
+            expected = [x for k, x in on_link if epoch_of[k] == e]
+            before = [x for k, x in on_link if epoch_of[k] < e]
+            h = hs[(dst, src)]
+            delivered = [(cid, p) for (ee, hh, cid, p) in got[dst] if ee == e and hh == h]
+            own = [hs[k] for k in hs if k[0] == dst]
+            stray = [x for x in got[dst] if x[0] == e and x[1] not in own]
+            if stray:
+                fail('deliver/wrong_handle', f'PDU delivered on handle 0x{stray[0][1]:04X} which is no connection of node {dst}')
+                return
+            stale = [d for d in delivered if d in before and d not in expected]
+            if stale:
+                fail('deliver/stale_after_reconnect',
+                     f'PDU cid=0x{stale[0][0]:04X} ({len(stale[0][1])} bytes) sent on the connection that was dropped '
+                     f'was delivered on the connection that replaced it')
+                return
+            verdict = compare_delivery(expected, delivered)
+            if verdict is not None and verdict[0].startswith('lost/') and (src, dst) in cut_links:
+                # the link was dropped while these PDUs were under way: what arrived is intact, once and in
+                # order (checked above by compare_delivery), the rest went with the link
+                labels.add('cut_lost_pdus')
+                verdict = None
+            if verdict is None:
+                continue
+            kind, text = verdict
+            where = f' (after {e} reconnection(s))' if e else ''
+            if kind.startswith('lost/'):
+                cause = site_of(errors[0]) if errors else 'silent'
+                fail(f'deliver/{kind}/{cause}', f'{text}{where}; {("escaped exception: " + repr(errors[0])) if errors else "no exception"}')
+            else:
+                fail(f'deliver/{kind}', text + where)
             return
-        if rec.peak[2] > n_adv:
-            fail('frag/over_credit', f'{rec.peak[2]} ACL packets in flight, controller advertised {n_adv}')
-            return
-    # ---- delivery
-    for (src, dst) in sorted(handles):
-        expected = [(s[2], p) for s, p in zip(sends, payloads) if (s[0], s[1]) == (src, dst)]
-        h = handles[(dst, src)]
-        delivered = [(cid, p) for (hh, cid, p) in got[dst] if hh == h]
-        stray = [x for x in got[dst] if x[0] not in [handles[k] for k in handles if k[0] == dst]]
-        if stray:
-            fail('deliver/wrong_handle', f'PDU delivered on handle 0x{stray[0][0]:04X} which is no connection of node {dst}')
-            return
-        verdict = compare_delivery(expected, delivered)
-        if verdict is None:
-            continue
-        kind, text = verdict
-        if kind.startswith('lost/'):
-            cause = site_of(errors[0]) if errors else 'silent'
-            fail(f'deliver/{kind}/{cause}', f'{text}; {("escaped exception: " + repr(errors[0])) if errors else "no exception"}')
-        else:
-            fail(f'deliver/{kind}', text)
-        return
 
 
-def check_acl_fragments(packets, expect: dict, f_adv: int, fail) -> bool:
-    """packets: host->controller ACL packets in emission order; expect: handle -> [l2cap frames]."""
+def check_acl_fragments(packets, expect: dict, f_adv, fail, partial_ok=(), progress=None) -> bool:
+    """packets: host->controller ACL packets in emission order; expect: handle -> [l2cap frames];
+    f_adv: advertised ACL data length (int, or handle -> int); partial_ok: handles of a link that was cut
+    (what was emitted must be a prefix of the fragment stream, the rest may be missing);
+    progress: dict filled with handle -> [PDU index, offset] reached."""
     pos = {h: [0, 0] for h in expect}
+    if progress is not None:
+        progress.update(pos)
     for pkt in packets:
         if len(pkt) < 5:
             fail('frag/short_packet', f'ACL packet of {len(pkt)} bytes')
@@ -456,8 +770,9 @@ def check_acl_fragments(packets, expect: dict, f_adv: int, fail) -> bool:
         if dlen != len(data):
             fail('frag/length_field', f'Data_Total_Length {dlen} but {len(data)} bytes follow')
             return False
-        if len(data) > f_adv:
-            fail('frag/too_long', f'ACL fragment of {len(data)} bytes, controller advertised {f_adv}')
+        f_max = f_adv[handle] if isinstance(f_adv, dict) else f_adv
+        if len(data) > f_max:
+            fail('frag/too_long', f'ACL fragment of {len(data)} bytes, controller advertised {f_max}')
             return False
         k, off = pos[handle]
         if k >= len(expect[handle]):
@@ -482,7 +797,11 @@ def check_acl_fragments(packets, expect: dict, f_adv: int, fail) -> bool:
             pos[handle] = [k + 1, 0]
         else:
             pos[handle] = [k, off]
+        if progress is not None:
+            progress[handle] = pos[handle]
     for handle, (k, off) in pos.items():
+        if handle in partial_ok:
+            continue
         if k != len(expect[handle]) or off:
             fail('frag/incomplete', f'only {k} of {len(expect[handle])} PDU(s) were completely handed to the '
                                     f'controller at quiescence (next one stopped at offset {off})')
@@ -514,6 +833,18 @@ def iso_case(draw):
     }
 
 
+@st.composite
+def iso_two_links_case(draw):
+    """Two CIS of one CIG: one ISO buffer pool, one sequence counter per CIS."""
+    case = draw(iso_case())
+    case['cis'] = 2
+    case['sdus'] = case['sdus'] + draw(st.lists(st.sampled_from(case['sdus'] + [1, 2 * case['iso_length']]), min_size=1, max_size=3))
+    case['sdus'] = [min(4095, x) for x in case['sdus']]
+    case['sdu_links'] = draw(st.lists(st.sampled_from([0, 1]), min_size=2, max_size=6).filter(lambda x: len(set(x)) == 2))
+    case['start_seq2'] = draw(st.sampled_from([None, None, 0xFFFF, 0xFFFE, 0x0100]))
+    return case
+
+
 def run_iso_case(ctx, case) -> None:
     from bumble.device import CigParameters
 
@@ -522,6 +853,10 @@ def run_iso_case(ctx, case) -> None:
     sdus = [int(x) for x in case['sdus']]
     start_seq = case['start_seq']
     credit_delays = list(case['credit_delays']) or [0]
+    n_cis = 2 if int(case.get('cis', 1)) == 2 else 1
+    sdu_links = [int(x) % n_cis for x in (case.get('sdu_links') or [0])]
+    link_of = [sdu_links[k % len(sdu_links)] for k in range(len(sdus))]  # SDU k goes out on CIS link_of[k]
+    start_seqs = [start_seq, case.get('start_seq2')][:n_cis]
     loop = vloop.new_loop()
     state: dict = {'phase': 'setup'}
     data = [pattern(('s', k, ln), ln) for k, ln in enumerate(sdus)]
@@ -548,18 +883,24 @@ def run_iso_case(ctx, case) -> None:
         w[1].device.on('cis_request', on_request)
         w[1].device.on('cis_establishment', lambda link: futs[link.handle].set_result(None))
         c_handles = await w[0].device.setup_cig(
-            CigParameters(cig_id=1, cis_parameters=[CigParameters.CisParameters(cis_id=2)],
+            CigParameters(cig_id=1, cis_parameters=[CigParameters.CisParameters(cis_id=2 + j) for j in range(n_cis)],
                           sdu_interval_c_to_p=0, sdu_interval_p_to_c=0)
         )
-        await w[0].device.create_cis([(c_handles[0], c0)])
+        await w[0].device.create_cis([(h, c0) for h in c_handles])
         await asyncio.gather(*futs.values())
         node = w[sender]
-        handle = c_handles[0] if sender == 0 else p_handles[0]
-        if handle not in node.host.cis_links:
-            raise HarnessError('CIS handle not known to the sending host')
-        if start_seq is not None:
-            node.host.cis_links[handle].packet_sequence_number = int(start_seq)
-        first_seq = node.host.cis_links[handle].packet_sequence_number
+        link_handles = list(c_handles if sender == 0 else p_handles)
+        if len(link_handles) != n_cis or len(set(link_handles)) != n_cis:
+            raise HarnessError(f'expected {n_cis} CIS handle(s), got {link_handles}')
+        first_seqs = []
+        for h, sq in zip(link_handles, start_seqs):
+            if h not in node.host.cis_links:
+                raise HarnessError('CIS handle not known to the sending host')
+            if sq is not None:
+                node.host.cis_links[h].packet_sequence_number = int(sq)
+            first_seqs.append(node.host.cis_links[h].packet_sequence_number)
+        handle = link_handles[0]
+        first_seq = first_seqs[0]
         rec = recs[sender]
         k = [0]
 
@@ -576,9 +917,10 @@ def run_iso_case(ctx, case) -> None:
                 loop.call_later(d / 1000.0, give_credit, u16(pkt, 1) & 0xFFF)
 
         node.tap.listeners.append(sink)
-        state.update(world=w, node=node, rec=rec, handle=handle, first_seq=first_seq, mark=len(rec.sent), phase='send')
-        for sdu in data:
-            node.host.send_iso_sdu(handle, sdu)
+        state.update(world=w, node=node, rec=rec, handle=handle, first_seq=first_seq, mark=len(rec.sent), phase='send',
+                     link_handles=link_handles, first_seqs=first_seqs)
+        for j, sdu in enumerate(data):
+            node.host.send_iso_sdu(link_handles[link_of[j]], sdu)
         idle = 0
         last = None
         t_end = loop.time() + 30.0 + 0.05 * nfrag
@@ -622,31 +964,42 @@ def run_iso_case(ctx, case) -> None:
             labels.add('iso_tiny_F')
         if nfrag > n:
             labels.add('iso_credits_exhausted')
-        if start_seq is not None and int(start_seq) + len(sdus) > 0xFFFF:
+        if start_seq is not None and int(start_seq) + link_of.count(0) > 0xFFFF:
             labels.add('iso_seq_wrap')
+        if n_cis == 2:
+            labels.add('iso_two_links')
+            if 0 in link_of and 1 in link_of:
+                labels.add('iso_two_links_both_used')
+            if start_seqs[1] is not None and int(start_seqs[1]) + link_of.count(1) > 0xFFFF:
+                labels.add('iso_seq_wrap')
         if outcome == 'budget':
             labels.add('iteration_budget_hit')
         elif outcome is not None:
             fail(f'iso/hang/{state["phase"]}/{outcome}', f'phase {state["phase"]}: {outcome}')
         else:
-            analyse_iso(state, data, f, n, fail)
-        ctx.case(('iso', f, n, sender, start_seq, credit_delays, sdus), nontrivial, labels,
-                 sample={'iso_length': f, 'iso_count': n, 'sdus': sdus, 'start_seq': start_seq})
+            analyse_iso(state, data, f, n, fail, link_of)
+        ctx.case(('iso', f, n, sender, start_seq, credit_delays, sdus) + ((n_cis, link_of, start_seqs[1]) if n_cis == 2 else ()),
+                 nontrivial, labels,
+                 sample={'iso_length': f, 'iso_count': n, 'sdus': sdus, 'start_seq': start_seq,
+                         **({'sdu_links': link_of} if n_cis == 2 else {})})
     finally:
         loop.shutdown()
 
 
-def analyse_iso(state, data, f, n, fail) -> None:
+def analyse_iso(state, data, f, n, fail, link_of=None) -> None:
     rec = state['rec']
     adv = advertised(state['node'].tap.log).get('iso')
     if adv is None:
         raise HarnessError('no LE Read Buffer Size [v2] answer seen on the tap')
     if adv != (f, n):
         raise HarnessError(f'controller advertised ISO {adv}, geometry was {(f, n)}')
-    handle = state['handle']
-    seq = state['first_seq']
-    k = 0  # SDU index
-    off = None  # None = expecting the first fragment of SDU k
+    link_handles = state.get('link_handles') or [state['handle']]
+    link_of = list(link_of) if link_of else [0] * len(data)
+    all_data = data
+    # one cursor per CIS: its SDUs in submission order, its own sequence counter
+    cursors = {h: {'data': [d for d, j in zip(all_data, link_of) if j == i], 'seq': state['first_seqs'][i] if 'first_seqs' in state else state['first_seq'],
+                   'k': 0, 'off': None} for i, h in enumerate(link_handles)}
+    handle = link_handles[0]
     for pkt in rec.data_packets(5, state['mark']):
         if len(pkt) < 5:
             fail('iso/short_packet', f'ISO packet of {len(pkt)} bytes')
@@ -655,9 +1008,11 @@ def analyse_iso(state, data, f, n, fail) -> None:
         h, pb, ts = hdr & 0xFFF, (hdr >> 12) & 3, (hdr >> 14) & 1
         dlen = u16(pkt, 3) & 0x3FFF
         rest = pkt[5:]
-        if h != handle:
+        if h not in cursors:
             fail('iso/unknown_handle', f'ISO packet for handle 0x{h:04X}, CIS handle is 0x{handle:04X}')
             return
+        cur = cursors[h]
+        data, seq, k, off = cur['data'], cur['seq'], cur['k'], cur['off']
         if dlen != len(rest):
             fail('iso/length_field', f'ISO_Data_Load_Length {dlen} but {len(rest)} bytes follow')
             return
@@ -710,9 +1065,12 @@ def analyse_iso(state, data, f, n, fail) -> None:
             k += 1
             off = None
             seq = (seq + 1) & 0xFFFF
-    if k != len(data) or off is not None:
-        fail('iso/incomplete', f'only {k} of {len(data)} SDU(s) were completely handed to the controller at quiescence')
-        return
+        cur['seq'], cur['k'], cur['off'] = seq, k, off
+    for cur in cursors.values():
+        if cur['k'] != len(cur['data']) or cur['off'] is not None:
+            done = sum(c['k'] for c in cursors.values())
+            fail('iso/incomplete', f'only {done} of {len(all_data)} SDU(s) were completely handed to the controller at quiescence')
+            return
     if rec.peak[5] > n:
         fail('iso/over_credit', f'{rec.peak[5]} ISO packets in flight, controller advertised {n}')
 
@@ -773,6 +1131,8 @@ def expand_script(script, start_pb: int):
             points = [0] + [c for c in cuts if 4 <= c < len(pdu)] + [len(pdu)]
             for a, b in zip(points, points[1:]):
                 items.append(('frag', start_pb if a == 0 else 1, pdu[a:b], si, True))
+        elif step[0] == 'reset':
+            items.append(('reset', None, b'', si, False))
         else:
             _k, kind, a, b, c = step
             junk = pattern(('j', si, kind, a, b, c), 600)
@@ -814,6 +1174,9 @@ def reference_reassembly(frags):
     cur = None
     out = []
     for pb, data in frags:
+        if pb is None:
+            cur = None  # the connection was replaced by a new one: nothing of the old one may be completed
+            continue
         if pb in (0, 2):
             cur = bytes(data)
         elif pb == 1:
@@ -1063,6 +1426,171 @@ def judge_raw(script, items, goods, delivered, raised, frags, target, fail) -> N
 
 
 # ---------------------------------------------------------------------------
+# mux: one receiving Host, several connections, the fragment streams of the connections interleaved as a
+# controller with several links delivers them; a stream for a handle that is no connection of the host
+# ---------------------------------------------------------------------------
+MUX_HANDLES = {'a': 0x40, 'b': 0x41, 'c': 0x42, 'x': 0x77}  # 'x': not a connection of the host
+
+
+def mux_case_strategy():
+    plain = script_strategy(False)
+    # the connection is replaced while a PDU is incomplete, and the first fragment on the new connection is a
+    # continuation that would complete the old PDU exactly
+    renewed = st.tuples(plain, st.integers(8, 120), st.integers(0, 119), plain).map(
+        lambda t: t[0] + [['bad', 'start_no_end', t[1], min(t[2], t[1] - 1), 0], ['reset'],
+                          ['bad', 'cont_no_start', 1, t[1] - min(t[2], t[1] - 1), 0]] + t[3])
+    renewed_idle = st.tuples(plain, plain).map(lambda t: t[0] + [['reset']] + t[1])
+    stream = st.fixed_dictionaries({'classic': st.sampled_from([False, False, True]),
+                                    'script': st.integers(0, 11).flatmap(
+                                        lambda i: plain if i < 9 else (renewed if i < 11 else renewed_idle))})
+    return st.fixed_dictionaries({
+        'kind': st.just('mux'), 'start_pb': st.sampled_from([2, 2, 0]),
+        'streams': st.fixed_dictionaries({'a': stream, 'b': stream}, optional={'c': stream, 'x': stream}),
+        'order': st.lists(st.integers(0, 3), min_size=2, max_size=24),
+    })
+
+
+def run_mux_case(ctx, case) -> None:
+    from bumble.host import DataPacketQueue, Host
+
+    start_pb = int(case['start_pb'])
+    streams = {name: case['streams'][name] for name in sorted(case['streams']) if name in MUX_HANDLES}
+    names = list(streams)
+    order = [int(x) for x in case['order']] or [0]
+    items: dict = {}
+    goods: dict = {}
+    for name in names:
+        its, gds = expand_script([list(s) for s in streams[name]['script']], start_pb)
+        # (a step without cut points is one fragment here: there is no sending host in this harness)
+        items[name] = [('frag', start_pb, frame(it[1], it[2]), it[3], True) if it[0] == 'host' else it for it in its]
+        goods[name] = gds
+    # merge: `order` names the stream that supplies the next fragment, cyclically; exhausted streams are skipped
+    seq = []
+    ptr = {name: 0 for name in names}
+    oi = 0
+    while any(ptr[n] < len(items[n]) for n in names):
+        name = names[order[oi % len(order)] % len(names)]
+        oi += 1
+        if ptr[name] >= len(items[name]):
+            name = next(n for n in names if ptr[n] < len(items[n]))
+        seq.append((name, ptr[name]))
+        ptr[name] += 1
+
+    failed: list = []
+
+    def fail(sig, what):
+        failed.append(sig)
+        ctx.fail(sig, what, dict(case))
+
+    loop = vloop.new_loop()
+    deliveries: list = []
+    raised: dict = {name: [] for name in names}
+    try:
+        class Sink:
+            def on_packet(self, packet):
+                pass
+
+        host = Host()
+        host.set_packet_sink(Sink())
+        host.ready = True
+        host.le_acl_packet_queue = DataPacketQueue(27, 64, host.send_hci_packet)
+        host.acl_packet_queue = DataPacketQueue(27, 64, host.send_hci_packet)
+
+        def connect(k, name):
+            if streams[name].get('classic'):
+                host.on_hci_connection_complete_event(
+                    hci.HCI_Connection_Complete_Event(
+                        status=0, connection_handle=MUX_HANDLES[name], bd_addr=hci.Address(f'F0:F0:F0:F0:F0:F{k}'),
+                        link_type=hci.HCI_Connection_Complete_Event.LinkType.ACL, encryption_enabled=0,
+                    )
+                )
+            else:
+                host.on_hci_le_connection_complete_event(
+                    hci.HCI_LE_Connection_Complete_Event(
+                        status=0, connection_handle=MUX_HANDLES[name], role=0, peer_address_type=0,
+                        peer_address=hci.Address(f'F0:F0:F0:F0:F0:F{k}'), connection_interval=6,
+                        peripheral_latency=0, supervision_timeout=100, central_clock_accuracy=0,
+                    )
+                )
+            if MUX_HANDLES[name] not in host.connections:
+                raise HarnessError('bare Host did not register the connection')
+
+        for k, name in enumerate(names):
+            if name != 'x':
+                connect(k, name)
+        host.on('l2cap_pdu', lambda h, cid, p: deliveries.append((h, cid, bytes(p))))
+        for name, i in seq:
+            it = items[name][i]
+            if it[0] == 'reset':
+                if name != 'x':
+                    host.on_packet(bytes(hci.HCI_Disconnection_Complete_Event(
+                        status=0, connection_handle=MUX_HANDLES[name], reason=0x13)))
+                    loop.settle()
+                    connect(names.index(name), name)
+                    loop.settle()
+                continue
+            raw = struct.pack('<BHH', 2, MUX_HANDLES[name] | (it[1] << 12), len(it[2])) + it[2]
+            try:
+                host.on_packet(raw)
+            except Exception as e:  # noqa: BLE001 - judged below
+                raised[name].append((i, e))
+            loop.settle()
+
+        labels = {'target:mux'}
+        if len([n for n in names if n != 'x']) >= 3:
+            labels.add('mux_three_connections')
+        kinds = {bool(streams[n].get('classic')) for n in names if n != 'x'}
+        if len(kinds) == 2:
+            labels.add('mux_classic_and_le')
+        # which well-formed PDUs had a fragment of another connection fed between two of their fragments?
+        span: dict = {}
+        for pos, (name, i) in enumerate(seq):
+            it = items[name][i]
+            if it[4]:
+                span.setdefault((name, it[3]), []).append(pos)
+        nontrivial = False
+        for (name, _si), where in span.items():
+            if name == 'x':
+                continue
+            for pos in range(where[0] + 1, where[-1]):
+                other, j = seq[pos]
+                if other == name:
+                    continue
+                nontrivial = True
+                labels.add('mux_interleaved_mid_pdu')
+                if other == 'x':
+                    labels.add('mux_unknown_handle_mid_pdu')
+                elif not items[other][j][4]:
+                    labels.add('mux_fault_inside_other_pdu')
+        for name in names:
+            if any(raised[name]):
+                labels.add('exception_on_feed')
+            script = streams[name]['script']
+            for j, step in enumerate(script):
+                if step[0] == 'reset' and name != 'x':
+                    labels.add('mux_reconnect')
+                    if j and script[j - 1][0] == 'bad' and script[j - 1][1] == 'start_no_end':
+                        labels.add('mux_reconnect_mid_pdu')
+        known = {MUX_HANDLES[n] for n in names if n != 'x'}
+        stray = [d for d in deliveries if d[0] not in known]
+        if stray:
+            fail('mux/unknown_handle_delivered', f'PDU delivered on handle 0x{stray[0][0]:04X} which is no connection of the host')
+        else:
+            for name in names:
+                if name == 'x':
+                    continue
+                judge_raw([list(s) for s in streams[name]['script']], items[name], goods[name],
+                          [(cid, p) for (h, cid, p) in deliveries if h == MUX_HANDLES[name]], raised[name],
+                          [(it[1], it[2]) for it in items[name]], 'mux', fail)
+                if failed:
+                    break  # one verdict per case
+        ctx.case(('mux', start_pb, {n: [streams[n].get('classic'), streams[n]['script']] for n in names}, order),
+                 nontrivial, labels, sample={'target': 'mux', 'streams': names, 'order': order[:8]})
+    finally:
+        loop.shutdown()
+
+
+# ---------------------------------------------------------------------------
 def fixed_top_cases():
     """The fixed handful of 655xx-byte cases run in every tier."""
     out = []
@@ -1094,7 +1622,7 @@ def run(ctx) -> None:
 
     def run_pdus(case):
         if broken and any(s[3] > 65531 for s in case['sends']):
-            case = dict(case, sends=[[s[0], s[1], s[2], min(s[3], 65531), s[4]] for s in case['sends']])
+            case = dict(case, sends=[[*s[:3], min(s[3], 65531), *s[4:]] for s in case['sends']])
             ctx.exclude('payload 65532..65535 (L2CAP PDU longer than 65535 bytes) clipped to 65531')
         run_pdus_case(ctx, case)
 
@@ -1103,8 +1631,16 @@ def run(ctx) -> None:
             pdus_case(cap=4096 if quick else 65535, budget=1200 if quick else 12000, top=not quick),
             max_examples=ctx.n(600, 16000))
     ctx.hyp('iso', lambda c: run_iso_case(ctx, c), iso_case(), max_examples=ctx.n(500, 24000))
+    ctx.hyp('iso2', lambda c: run_iso_case(ctx, c), iso_two_links_case(), max_examples=ctx.n(120, 6400))
     ctx.hyp('raw', lambda c: run_raw_case(ctx, c), raw_case_strategy(), max_examples=ctx.n(500, 24000))
     ctx.hyp('asm', lambda c: run_raw_case(ctx, c), asm_case_strategy(), max_examples=ctx.n(3000, 160000))
+    ctx.hyp('reconnect', run_pdus,
+            history_case(mixed=False, cap=1500 if quick else 8000, budget=300 if quick else 3000),
+            max_examples=ctx.n(200, 16000))
+    ctx.hyp('mixed', run_pdus,
+            history_case(mixed=True, cap=1500 if quick else 8000, budget=300 if quick else 3000),
+            max_examples=ctx.n(120, 9600))
+    ctx.hyp('mux', lambda c: run_mux_case(ctx, c), mux_case_strategy(), max_examples=ctx.n(600, 48000))
     for label, n in (
         ('multi_fragment', 50), ('boundary_-1', 20), ('boundary_0', 20), ('boundary_+1', 20), ('len_0', 5),
         ('len_1', 5), ('classic', 30), ('le', 30), ('le_shared_buffers', 5), ('tiny_F', 20), ('count_1', 20),
@@ -1113,6 +1649,18 @@ def run(ctx) -> None:
         ('mal:cont_no_start', 50), ('mal:start_no_end', 50), ('mal:overflow', 50), ('mal:short_start_lt2', 20),
         ('mal:short_start_2_3', 20), ('target:peer', 50), ('target:asm', 50), ('target:host', 50),
         ('host_fragmented_pdu', 20), ('hand_cut_pdu', 20),
+    ):
+        ctx.floor(label, n)
+    # classes added with the history / dual-mode / multiplexed / two-CIS families (every shard runs its share of each
+    # family, the floors are far below a sixteenth of the thorough totals)
+    for label, n in (
+        ('reconnect', 80), ('pdu_after_reconnect', 80), ('reconnect_same_handle', 80), ('reconnect_multi_fragment', 60),
+        ('reconnect_credits_exhausted', 60), ('cut:now', 50), ('cut:gap', 12), ('cut:idle', 12), ('cut_mid_pdu', 20),
+        ('cut_with_queued_fragments', 20), ('cut_lost_pdus', 30), ('cut_by_central', 30), ('cut_by_peripheral', 30),
+        ('cut_while_other_link_up', 30), ('mixed_transports', 60), ('mixed_dual_pools', 20), ('mixed_shared_pool', 5),
+        ('target:mux', 300), ('mux_interleaved_mid_pdu', 60), ('mux_fault_inside_other_pdu', 40),
+        ('mux_unknown_handle_mid_pdu', 15), ('mux_three_connections', 60), ('mux_classic_and_le', 80),
+        ('mux_reconnect', 60), ('mux_reconnect_mid_pdu', 40), ('iso_two_links_both_used', 40),
     ):
         ctx.floor(label, n)
     ctx.floor('len_top', 1)
@@ -1129,5 +1677,7 @@ def replay(ctx, case) -> None:
         run_iso_case(ctx, case)
     elif kind == 'raw':
         run_raw_case(ctx, case)
+    elif kind == 'mux':
+        run_mux_case(ctx, case)
     else:
         raise ValueError(kind)
